@@ -3,7 +3,7 @@
     arbitrary range list [rs] with at least one entry (the last entry is the sentinel range;
     positions are 0..n-1; [ri_Done pos] <-> n-1 <= pos).  [ri_IsEmpty] is "contents = doneContents". *)
 From Coq Require Import ZArith List Bool Lia ZifyBool.
-From Geo Require Import Base.GoPrim Model.CellIndex.
+From Geo Require Import Base.GoPrim Model.CellUnion Model.CellIndex.
 Import ListNotations.
 Local Open Scope Z_scope.
 
@@ -231,6 +231,116 @@ Section IterBack.
     - specialize (Hrne ltac:(lia)). specialize (Hj r ltac:(lia)). congruence.
     - specialize (Hne ltac:(lia)). specialize (Hrj pos ltac:(lia)). congruence.
   Qed.
+  (** ** histories: the non-empty iterator stays on non-empty ranges (or Done) *)
+  Lemma ib_search_go_bounds (f : Z -> bool) : forall (fuel : nat) i j, i <= j -> i <= search_go fuel f i j <= j.
+  Proof.
+    induction fuel as [|fuel IH]; intros i j Hij; cbn [search_go]; [lia|].
+    destruct (Z.ltb_spec i j) as [Hlt|Hge]; [|lia]. cbv zeta.
+    assert (Hh : i <= (i + j) / 2 < j) by (split; [apply Z.div_le_lower_bound|apply Z.div_lt_upper_bound]; lia).
+    set (h := (i + j) / 2) in *. destruct (f h).
+    - specialize (IH i h ltac:(lia)). lia.
+    - specialize (IH (h + 1) j ltac:(lia)). lia.
+  Qed.
+
+  (** the position where Seek starts its skip (no sortedness of [rs] is needed for the bound) *)
+  Lemma ib_seek_start t :
+    let r := sort_Search (Z.of_nat (length rs)) (fun i => t <? fst (nth_rnode rs i)) - 1 in
+    0 <= (if r <? 0 then 0 else r) <= n - 1.
+  Proof.
+    cbv zeta. unfold sort_Search.
+    pose proof (ib_search_go_bounds (fun i => t <? fst (nth_rnode rs i)) (Z.to_nat (Z.of_nat (length rs))) 0 (Z.of_nat (length rs)) ltac:(lia)) as B.
+    set (r := search_go _ _ _ _) in *. fold n in B. destruct (Z.ltb_spec (r - 1) 0); lia.
+  Qed.
+
+  Lemma ib_seek_stop t : ib_stop (ri_Seek rs true t).
+  Proof.
+    unfold ri_Seek. cbv zeta. pose proof (ib_seek_start t) as B. cbv zeta in B.
+    set (p := if _ <? 0 then 0 else _) in *.
+    destruct (ib_skip_spec (length rs) p B ltac:(unfold n; lia)) as (H1 & H2 & H3).
+    split; [lia|exact H3].
+  Qed.
+
+  Lemma ib_seek_plain_range t : 0 <= ri_Seek rs false t <= n - 1.
+  Proof.
+    unfold ri_Seek. cbv zeta. rewrite ib_skip_plain. exact (ib_seek_start t).
+  Qed.
+
+  (** one operation of [ri_run] *)
+  Definition ib_step (nonEmpty : bool) (pos : Z) (op : ri_op) : Z * bool :=
+    match op with
+    | OpBegin => (ri_Begin rs nonEmpty, true)
+    | OpNext => (ri_Next rs nonEmpty pos, true)
+    | OpPrev => ri_Prev rs nonEmpty pos
+    | OpSeek target => (ri_Seek rs nonEmpty target, true)
+    | OpFinish => (ri_Finish rs, true)
+    | OpAdvance k => ri_Advance rs pos k
+    end.
+
+  Lemma ib_run_cons nonEmpty pos op t :
+    ri_run rs nonEmpty pos (op :: t) = ib_step nonEmpty pos op :: ri_run rs nonEmpty (fst (ib_step nonEmpty pos op)) t.
+  Proof.
+    destruct op; cbn [ri_run ib_step fst]; try reflexivity.
+    - destruct (ri_Prev rs nonEmpty pos); reflexivity.
+    - destruct (ri_Advance rs pos k); reflexivity.
+  Qed.
+
+  (** legal use: Next only when not Done; Advance only if [adv], and then with k >= 0 *)
+  Definition ib_op_ok (adv : bool) (pos : Z) (op : ri_op) : Prop :=
+    match op with
+    | OpNext => ri_Done rs pos = false
+    | OpAdvance k => adv = true /\ 0 <= k
+    | _ => True
+    end.
+  Fixpoint ib_legal (adv nonEmpty : bool) (pos : Z) (ops : list ri_op) : Prop :=
+    match ops with
+    | [] => True
+    | op :: t => ib_op_ok adv pos op /\ ib_legal adv nonEmpty (fst (ib_step nonEmpty pos op)) t
+    end.
+
+  Lemma ib_step_stop pos op : ib_stop pos -> ib_op_ok false pos op -> ib_stop (fst (ib_step true pos op)).
+  Proof.
+    intros Hs Hok. destruct op; cbn [ib_step fst ib_op_ok] in *.
+    - exact (proj1 ib_begin_spec).
+    - unfold ri_Done in Hok. fold n in Hok. destruct Hs as [Hp _].
+      exact (proj1 (ib_next_spec pos ltac:(lia))).
+    - destruct (ri_Prev_nonempty_spec pos (proj1 Hs)) as (A & B & _). cbv zeta in *.
+      destruct (snd (ri_Prev rs true pos)) eqn:E.
+      + destruct (A eq_refl) as (Hq & He & _). destruct Hs as [Hp _]. split; [lia|intros _; exact He].
+      + destruct (B eq_refl) as (_ & _ & R). rewrite (R Hs). exact Hs.
+    - apply ib_seek_stop.
+    - unfold ri_Finish. fold n. split; [lia|intros; lia].
+    - destruct Hok as [Hf _]. discriminate.
+  Qed.
+
+  Theorem ib_history_stop : forall ops pos, ib_stop pos -> ib_legal false true pos ops ->
+    Forall ib_stop (map fst (ri_run rs true pos ops)).
+  Proof.
+    induction ops as [|op t IH]; intros pos Hs Hl; [constructor|].
+    rewrite ib_run_cons. destruct Hl as [Hok Hl]. cbn [map]. pose proof (ib_step_stop pos op Hs Hok) as H.
+    constructor; [exact H|]. apply IH; assumption.
+  Qed.
+
+  Lemma ib_step_range pos op : 0 <= pos <= n - 1 -> ib_op_ok true pos op -> 0 <= fst (ib_step false pos op) <= n - 1.
+  Proof.
+    intros Hp Hok. destruct op; cbn [ib_step fst ib_op_ok] in *.
+    - unfold ri_Begin. rewrite ib_skip_plain. lia.
+    - rewrite ib_next_plain. unfold ri_Done in Hok. fold n in Hok. lia.
+    - destruct (ri_Prev_plain pos) as (A & B & _). destruct (Z.eq_dec pos 0) as [E|E].
+      + rewrite (B E). cbn [fst]. lia.
+      + rewrite (proj1 (A ltac:(lia))). cbn [fst]. lia.
+    - apply ib_seek_plain_range.
+    - unfold ri_Finish. fold n. lia.
+    - destruct Hok as [_ Hk]. destruct (ri_Advance_spec pos k) as (A & B & _).
+      destruct (Z_lt_le_dec (pos + k) (n - 1)) as [H|H]; [rewrite (A H)|rewrite (B H)]; cbn [fst]; lia.
+  Qed.
+
+  Theorem ib_history_plain_range : forall ops pos, 0 <= pos <= n - 1 -> ib_legal true false pos ops ->
+    Forall (fun p => 0 <= p <= n - 1) (map fst (ri_run rs false pos ops)).
+  Proof.
+    induction ops as [|op t IH]; intros pos Hs Hl; [constructor|].
+    rewrite ib_run_cons. destruct Hl as [Hok Hl]. cbn [map]. pose proof (ib_step_range pos op Hs Hok) as H.
+    constructor; [exact H|]. apply IH; assumption.
+  Qed.
 End IterBack.
 
 (** ** the premises are satisfiable: a range list with empty runs (contents -1 = doneContents) *)
@@ -272,4 +382,23 @@ Example ib_ex_none_premises :
   0 <= 2 <= Z.of_nat (length ib_ex) - 1 /\ (forall j, 0 <= j < 2 -> ri_IsEmpty ib_ex j = true).
 Proof.
   split; [cbn; lia|]. intros j H. assert (j = 0 \/ j = 1) as [-> | ->] by lia; reflexivity.
+Qed.
+
+(** OpAdvance is excluded from [ib_history_stop]: the non-empty iterator inherits Advance unfiltered,
+    so from the non-empty position 2 it lands on the empty, non-Done range 3 *)
+Example ib_history_advance_refuted :
+  ib_stop ib_ex 2 /\ exists p, In p (map fst (ri_run ib_ex true 2 [OpAdvance 1])) /\
+    ri_IsEmpty ib_ex p = true /\ ri_Done ib_ex p = false /\ ~ ib_stop ib_ex p.
+Proof.
+  split; [split; [cbn; lia|intros _; reflexivity]|]. exists 3. split; [vm_compute; auto|].
+  split; [reflexivity|]. split; [reflexivity|]. intros [_ H]. specialize (H ltac:(cbn; lia)). discriminate.
+Qed.
+
+(** a legal history on the example that uses every allowed operation *)
+Example ib_ex_history :
+  ib_stop ib_ex 2 /\ ib_legal ib_ex false true 2 [OpNext; OpPrev; OpPrev; OpSeek 8; OpFinish; OpPrev; OpBegin; OpNext] /\
+  map fst (ri_run ib_ex true 2 [OpNext; OpPrev; OpPrev; OpSeek 8; OpFinish; OpPrev; OpBegin; OpNext]) = [5; 2; 2; 5; 7; 5; 2; 5].
+Proof.
+  split; [split; [cbn; lia|intros _; reflexivity]|]. split; [|vm_compute; reflexivity].
+  vm_compute. repeat split.
 Qed.
